@@ -1,8 +1,193 @@
 import SLModel.Drv.Util
+import SLModel.Core.Vector
 open Lean
 namespace SL.Drv.C29
+open SL.Drv SL.Vec
 
-/-- stub: no model operations for C29 yet -/
-def handle (_req : Json) : Except String Json := .error "C29: not implemented"
+/-- `f32::total_cmp` key: sign-magnitude bits mapped to a signed integer -/
+def f32Key (x : Float32) : Int :=
+  let b := x.toBits.toNat
+  if b ≥ 2147483648 then -((b - 2147483648 : Nat) : Int) - 1 else (b : Int)
+
+/-- the driver's scalars: IEEE single precision, the operations the Rust code performs -/
+instance : Scalar Float32 where
+  zero := 0.0
+  nzero := Float32.neg 0.0
+  one := 1.0
+  add := (· + ·)
+  sub := (· - ·)
+  mul := (· * ·)
+  div := (· / ·)
+  neg := Float32.neg
+  sqrt := Float32.sqrt
+  lt a b := a < b
+  le a b := a ≤ b
+  tlt a b := f32Key a < f32Key b
+  isNan := Float32.isNaN
+  isFinite := Float32.isFinite
+  fmin := Float32.ofBits 0xFF7FFFFF
+  ofNat := Float32.ofNat
+
+def jf32 (j : Json) : Except String Float32 := do
+  let n ← j.getNum?
+  return n.toFloat.toFloat32
+
+def f32List (j : Json) : Except String (List Float32) := do
+  let a ← j.getArr?
+  a.toList.mapM jf32
+
+def f32Json (x : Float32) : Json :=
+  Json.mkObj [("v", toJson x.toFloat), ("bits", x.toBits.toNat)]
+
+def optF32Json : Option Float32 → Json
+  | some x => f32Json x
+  | none => Json.null
+
+def optNat (j : Json) (k : String) : Option Nat :=
+  match getOpt j k with
+  | some v => match v.getNat? with | .ok n => some n | .error _ => none
+  | none => none
+
+def optF32 (j : Json) (k : String) : Except String (Option Float32) :=
+  match getOpt j k with
+  | some v => do return some (← jf32 v)
+  | none => return none
+
+def metricOf (s : String) : Except String Metric :=
+  match s with
+  | "Cosine" => .ok .cosine
+  | "L2" => .ok .l2
+  | _ => .error s!"metric {s}"
+
+/-- `VectorQuery` object (the repository's serde form) -/
+def vqueryOf (j : Json) : Except String (VQuery String Float32) := do
+  return { field := ← getStr j "field", vector := ← f32List (← j.getObjVal? "vector"),
+           k := optNat j "k", alpha := ← optF32 j "alpha", efSearch := optNat j "ef_search",
+           candidateSize := optNat j "candidate_size", boost := ← optF32 j "boost" }
+
+/-- `VectorQuerySpec`: object form or the legacy tuple `[field, vector, alpha]` -/
+def vspecOf (j : Json) : Except String (VQuery String Float32) :=
+  match j with
+  | .arr a =>
+    if h : a.size = 3 then do
+      return { field := ← a[0].getStr?, vector := ← f32List a[1], k := none,
+               alpha := some (← jf32 a[2]), efSearch := none, candidateSize := none, boost := none }
+    else .error "legacy vector_query tuple"
+  | _ => vqueryOf j
+
+/-- `QueryNode` JSON → the part of the tree `collect_vectors` inspects -/
+partial def qnodeOf (j : Json) : Except String (QNode String Float32) := do
+  let ty := getStrD j "type" ""
+  match ty with
+  | "vector" => return .vector (← vqueryOf j)
+  | "bool" =>
+    let kids (k : String) : Except String (List (QNode String Float32)) :=
+      (getArrD j k).toList.mapM qnodeOf
+    return .bool (← kids "must") (← kids "should") (← kids "must_not") (!(getArrD j "filter").isEmpty)
+  | "dis_max" => return .disMax (← (getArrD j "queries").toList.mapM qnodeOf)
+  | "function_score" | "script_score" => return .wrap (← qnodeOf (← j.getObjVal? "query"))
+  | _ => return .other
+
+def schemaOf (j : Json) : Except String (List (VField String)) := do
+  let a ← j.getArr?
+  a.toList.mapM (fun f => do
+    return { name := ← getStr f "name", dim := ← getNat f "dim",
+             metric := ← metricOf (← getStr f "metric"),
+             m := getNatD f "m" 16, efc := getNatD f "efc" 64 })
+
+def sdocOf (j : Json) : Except String (SDoc String Float32) := do
+  let vecs ← match j.getObjVal? "vecs" with
+    | .ok (.obj kvs) => kvs.toList.mapM (fun (k, v) => do return (k, ← f32List v))
+    | _ => pure []
+  return { deleted := getBoolD j "deleted" false, passFilter := getBoolD j "pass_filter" true,
+           passVFilter := getBoolD j "pass_vfilter" true, textMatch := getBoolD j "text_match" false,
+           bm25 := ← optF32 j "bm25", vecs := vecs }
+
+def reqOf (j : Json) : Except String (Req String Float32) := do
+  let query ← match getOpt j "query" with
+    | some (.str _) => pure none
+    | some q => do pure (some (← qnodeOf q))
+    | none => pure none
+  let vq ← match getOpt j "vector_query" with
+    | some v => do pure (some (← vspecOf v))
+    | none => pure none
+  return { query := query, vectorQuery := vq, limit := ← getNat j "limit",
+           candidateSize := optNat j "candidate_size" }
+
+def errName : PlanErr → String
+  | .both => "both" | .tooMany => "too_many" | .unknownField => "unknown_field"
+  | .dim => "dim" | .alpha => "alpha" | .boost => "boost"
+
+def hitJson (h : Hit Float32) : Json :=
+  Json.mkObj [("seg", h.seg), ("doc", h.doc), ("score", f32Json h.score),
+              ("vector_score", optF32Json h.vectorScore)]
+
+def storeOfJson (j : Json) : Except String (Store Float32) := do
+  let a ← j.getArr?
+  a.toList.mapM (fun v => match v with
+    | .null => pure none
+    | v => do pure (some (← f32List v)))
+
+/--
+* `{"op":"search","schema":[…],"segments":[[doc…]…],"req":{…}[,"compacted":true]}` → outcome of
+  `searchReq` (on `compactSegs segments` when `compacted`)
+* `{"op":"plan","schema":[…],"req":{…}}` → the plan (`buildPlan` + `effectivePlan`)
+* `{"op":"graph","metric":…,"store":[vec|null…],"m":…,"efc":…}` → `buildGraph` on the prepared store
+* `{"op":"hnsw_search","metric":…,"store":…,"m":…,"efc":…,"q":[…],"k":…,"ef":…}` → `search` on that graph
+* `{"op":"sim","metric":…,"a":[…],"b":[…]}` → `metricSim` of the prepared vectors
+-/
+def handle (req : Json) : Except String Json := do
+  let op ← getStr req "op"
+  match op with
+  | "search" =>
+    let schema ← schemaOf (← req.getObjVal? "schema")
+    let segs ← (← getArr req "segments").toList.mapM (fun s => do
+      (← s.getArr?).toList.mapM sdocOf)
+    let r ← reqOf (← req.getObjVal? "req")
+    -- `"compacted": true` = the same request after `Index::compact`
+    let segs := if getBoolD req "compacted" false then compactSegs segs else segs
+    match searchReq schema segs r with
+    | .error e => return Json.mkObj [("outcome", "error"), ("err", errName e)]
+    | .textOnly => return Json.mkObj [("outcome", "text_only")]
+    | .hits vo l =>
+      return Json.mkObj [("outcome", "hits"), ("vector_only", vo),
+                         ("hits", Json.arr (l.map hitJson).toArray)]
+  | "plan" =>
+    let schema ← schemaOf (← req.getObjVal? "schema")
+    let r ← reqOf (← req.getObjVal? "req")
+    match buildPlan schema r with
+    | .error e => return Json.mkObj [("outcome", "error"), ("err", errName e)]
+    | .ok p =>
+      match effectivePlan p with
+      | none => return Json.mkObj [("outcome", "text_only")]
+      | some p =>
+        return Json.mkObj [("outcome", "plan"), ("vector_only", p.vectorOnly),
+          ("candidate_size", p.candidateSize),
+          ("clauses", Json.arr (p.clauses.map (fun c => Json.mkObj [
+            ("field", c.field), ("k", c.k), ("alpha", f32Json c.alpha), ("ef_search", c.efSearch),
+            ("candidate_size", c.candidateSize), ("boost", f32Json c.boost)])).toArray)]
+  | "graph" =>
+    let mt ← metricOf (← getStr req "metric")
+    let raw ← storeOfJson (← req.getObjVal? "store")
+    let st : Store Float32 := raw.map (fun o => o.map (prep mt))
+    let g := buildGraph mt st (← getNat req "m") (← getNat req "efc")
+    return Json.mkObj [("entry", match g.entry with | some e => (e : Json) | none => Json.null),
+                       ("m", g.m), ("ef_construction", g.efc),
+                       ("neighbors", Json.arr (g.nbrs.map natsToJson).toArray)]
+  | "hnsw_search" =>
+    let mt ← metricOf (← getStr req "metric")
+    let raw ← storeOfJson (← req.getObjVal? "store")
+    let st : Store Float32 := raw.map (fun o => o.map (prep mt))
+    let g := buildGraph mt st (← getNat req "m") (← getNat req "efc")
+    let q := prep mt (← f32List (← req.getObjVal? "q"))
+    let res := search mt st g q (← getNat req "k") (← getNat req "ef")
+    return Json.mkObj [("hits", Json.arr (res.map (fun s =>
+      Json.mkObj [("id", s.id), ("score", f32Json s.score)])).toArray)]
+  | "sim" =>
+    let mt ← metricOf (← getStr req "metric")
+    let a ← f32List (← req.getObjVal? "a")
+    let b ← f32List (← req.getObjVal? "b")
+    return Json.mkObj [("sim", f32Json (metricSim mt (prep mt a) (prep mt b)))]
+  | _ => throw s!"C29: unknown op {op}"
 
 end SL.Drv.C29
